@@ -186,7 +186,9 @@ func (w *World) evalMethodsUncached(node string) []*FuncInfo {
 		// a node evaluator: func (c *compiler) evalX(node T) (interface{}, error)
 		// (or, for a statement that yields no value, func (c *compiler) evalX(node T) error)
 		errOnly := sig.Results().Len() == 1 && isErrorType(sig.Results().At(0).Type()) && (node == "LetStatement" || node == "Statement")
-		if sig.Params().Len() != 1 || !(errOnly || (sig.Results().Len() == 2 && isErrorType(sig.Results().At(1).Type()))) {
+		// (the node is the first parameter; an evaluator may take further operands - a flag, a token type -
+		// that its callers fix)
+		if sig.Params().Len() < 1 || !(errOnly || (sig.Results().Len() == 2 && isErrorType(sig.Results().At(1).Type()))) {
 			continue
 		}
 		if !errOnly {
@@ -194,7 +196,7 @@ func (w *World) evalMethodsUncached(node string) []*FuncInfo {
 				continue
 			}
 		}
-		for i := 0; i < sig.Params().Len(); i++ {
+		for i := 0; i < 1; i++ {
 			if namedIs(sig.Params().At(i).Type(), astPath, node) {
 				if _, isPtr := sig.Params().At(i).Type().(*types.Pointer); isPtr || node == "Expression" || node == "Statement" {
 					out = append(out, f)
